@@ -1092,7 +1092,7 @@ func (c *Conn) writeRequest(ctx *Ctx) error {
 
 	c.bwLck.Lock()
 
-	_, err := fr.WriteTo(c.bw)
+	_, err := fr.writeLimited(c.bw, atomic.LoadUint32(&c.maxFrameSize))
 	if err == nil {
 		err = c.bw.Flush()
 	}
